@@ -878,3 +878,84 @@ func RUnionRet(c *core.Ctx) {
 		c.Anchor("returns inside the category loop of charInCategories")
 	}
 }
+
+// ---------------------------------------------------------------------------
+// R-CATSTOO: a class is ranges AND categories.
+// A function that hands out, or answers from, the ranges of a class must have
+// looked at its categories: [a-z\d] has one range and one category, and
+// "its only range is a-z" is not a description of it.
+// ---------------------------------------------------------------------------
+
+var catsTooExempt = map[string]string{
+	"syntax.(CharSet).SingletonChar": "documented precondition: the caller checked IsSingleton / IsSingletonInverse, which test the categories",
+}
+
+func RCatsToo(c *core.Ctx) {
+	c.Rule("R-CATSTOO", "every method of CharSet whose result is taken from the receiver's ranges (a return statement mentions c.ranges) also consults the receiver's categories somewhere (len(c.categories), charInCategories, …), unless listed with a reason: otherwise a class like [a-z\\d] is described by its range alone", 4)
+	p := c.P
+	syn := p.Pkg("syntax")
+	info := syn.TypesInfo
+	rng := p.LookupField("syntax", "CharSet", "ranges")
+	cats := p.LookupField("syntax", "CharSet", "categories")
+	if rng == nil || cats == nil {
+		c.Anchor("CharSet.ranges / categories")
+		return
+	}
+	n := 0
+	for _, fd := range p.FuncDecls(syn) {
+		if fd.Body == nil || fd.Recv == nil || p.IsTestFile(fd.Pos()) || fd.Type.Results == nil {
+			continue
+		}
+		recvT := info.TypeOf(fd.Recv.List[0].Type)
+		if _, nm := core.NamedOf(recvT); nm != "CharSet" || len(fd.Recv.List[0].Names) == 0 {
+			continue
+		}
+		recv := info.Defs[fd.Recv.List[0].Names[0]]
+		mentionsField := func(n ast.Node, f *types.Var) bool {
+			found := false
+			ast.Inspect(n, func(x ast.Node) bool {
+				if se, ok := x.(*ast.SelectorExpr); ok && info.ObjectOf(se.Sel) == f {
+					if id, ok := ast.Unparen(se.X).(*ast.Ident); ok && info.ObjectOf(id) == recv {
+						found = true
+					}
+				}
+				return !found
+			})
+			return found
+		}
+		fromRanges := false
+		ast.Inspect(fd.Body, func(x ast.Node) bool {
+			if ret, ok := x.(*ast.ReturnStmt); ok && mentionsField(ret, rng) {
+				fromRanges = true
+			}
+			return true
+		})
+		if !fromRanges {
+			continue
+		}
+		name := core.DeclName(syn, fd)
+		n++
+		c.Visit(name)
+		if why, ok := catsTooExempt[name]; ok {
+			c.OK(name+" / a result taken from the ranges also accounts for the categories", fd.Pos(), "exempt: %s", why)
+			continue
+		}
+		consults := mentionsField(fd.Body, cats)
+		if !consults {
+			// delegation to a method that does
+			ast.Inspect(fd.Body, func(x ast.Node) bool {
+				if call, ok := x.(*ast.CallExpr); ok {
+					if cal := core.Callee(info, call); cal != nil && (cal.Name() == "charInCategories" || cal.Name() == "IsSingleton" || cal.Name() == "IsSingletonInverse") {
+						consults = true
+					}
+				}
+				return true
+			})
+		}
+		c.Check(consults, name+" / a result taken from the ranges also accounts for the categories", fd.Pos(),
+			"the function returns data from c.ranges without ever looking at c.categories: for a class with a category ([a-z\\d]) the answer describes only part of the class, and what is published from it (a fixed-distance range) is false for matches that enter through the category")
+	}
+	if n == 0 {
+		c.Anchor("CharSet methods whose result comes from c.ranges")
+	}
+}
